@@ -260,7 +260,7 @@ def run(ctx):
     rows, (p_dns, t_dns), (p_home, t_home) = walk_and_trace(ctx, graph)
     summaries = [r for r in rows if r.get("kind") == "summary"]
     flaky = [r for r in rows if r.get("kind") == "flaky"]
-    known_pairs, truncated_walk = set(), 0
+    known_pairs, truncated_walk, by_key = set(), 0, {}
     for r in rows:
         if r.get("kind") != "bad":
             continue
@@ -270,6 +270,7 @@ def run(ctx):
         if verdict == "known":
             known_pairs.add((r["from"], r["act"]))
             truncated_walk += 1
+            by_key["walk:" + key] = by_key.get("walk:" + key, 0) + 1
     if not summaries:
         raise vlib.Inconclusive("no walk summaries")
     steps = sum(s["steps"] for s in summaries)
@@ -303,6 +304,7 @@ def run(ctx):
         allconf += confirmed
     for rec in allconf:
         key = classify_trace(rec)
+        by_key["trace:%s" % key] = by_key.get("trace:%s" % key, 0) + 1
         ctx.disagreement(key, rec, "history %s (%s), line %s at %s ms: %s en=%s d=%s(%s) kind=%s -> %s, stored %s -> %s, file %s; rejected by TraceProtection (%s)" % (
             rec["tr"], rec["half"], rec["line_in_trace"], rec["now"], rec["k"], rec["en"], rec["d"], rec["dk"], rec["kind"],
             rec["res"] or [rec["ren"], rec["ru"]], rec["pre"], rec["post"], rec["disk"], rec["detail"]))
@@ -342,6 +344,7 @@ def run(ctx):
         "trace_lines": len(t_dns) + len(t_home), "trace_histories": ntr, "trace_histories_with_rejected_line": nbad,
         "trace_reads_inside_a_pause": paused_reads, "trace_unblocked_queries": unblocked, "trace_real_worker_runs": ran,
         "truncated_by_known_finding": truncated_walk + truncated_trace,
+        "histories_ended_by_known_finding": by_key,
         "flaky": len(flaky), "negative_configurations": negs,
         "exhaustive": True, "samples": samples,
         "states": mc["distinct"], "transitions": mc["generated"],
